@@ -161,11 +161,26 @@ func (p *Path) freshVar(name string, w int) *Term {
 		full = fmt.Sprintf("%s#%d", name, k)
 	}
 	if p.pin != nil {
-		return p.tt.Const(w, p.pin[full])
+		if v, ok := p.pin[full]; ok || p.eng.randSeed == 0 {
+			return p.tt.Const(w, v)
+		}
+		// translator validation: missing draws are pseudo-random, by the same function as the native vapi
+		return p.tt.Const(w, seedHash(p.eng.randSeed, full))
 	}
 	t := p.tt.Var(full, w)
 	p.inputs = append(p.inputs, inputVar{full, w, t})
 	return t
+}
+
+// seedHash: FNV-1a of "seed:name" (the native vapi package computes the same).
+func seedHash(seed uint64, name string) uint64 {
+	h := uint64(14695981039346656037)
+	s := fmt.Sprintf("%d:%s", seed, name)
+	for i := 0; i < len(s); i++ {
+		h ^= uint64(s[i])
+		h *= 1099511628211
+	}
+	return h
 }
 
 // ---- solver plumbing ----
@@ -245,6 +260,8 @@ func (p *Path) decideCtl(n int) int {
 		c := 0
 		if p.pinPos < len(p.pinCtl) {
 			c = p.pinCtl[p.pinPos]
+		} else if p.eng.randSeed != 0 {
+			c = int(seedHash(p.eng.randSeed, fmt.Sprintf("ctl#%d", p.pinPos)) % uint64(n))
 		}
 		p.pinPos++
 		if c < 0 || c >= n {
@@ -622,6 +639,13 @@ func (p *Path) where() string {
 }
 
 func (p *Path) reportViolation(kind, msg, known string, model map[string]uint64) {
+	if kind != "assert" && p.pin == nil {
+		// crashes and deadlocks are observed at the end of a path, not decided by a query: make sure the path is
+		// feasible at all (it may have been kept after an undecided feasibility query)
+		if p.pcSat() == "unsat" {
+			panic(abortPath{kind: "infeasible", msg: "path condition unsatisfiable (kept after an undecided feasibility query)"})
+		}
+	}
 	v := Violation{Msg: msg, Known: known, Model: model, Kind: kind, Where: p.where()}
 	v.Decision = append([]int(nil), p.dec...)
 	v.Ctl = append([]int(nil), p.ctl...)
